@@ -1,6 +1,7 @@
 import XvcPipeline.Progress
 import XvcPipeline.Demo
 import XvcPipeline.Gen.ExitStatus
+import XvcPipeline.Gen.ImplicitEdges
 /-!
 # Property theorems C10 / C13 / C11 of the scheduler model
 
@@ -204,6 +205,26 @@ theorem C10_recorded_items_do_not_hide_outputs (g : String) (recorded : List Str
     declared pattern matches it (`gm = true`): it is read -/
 example : depEdge .GlobItems false true false false = true := by decide
 
+/-! ### every producer of a path is a dependency -/
+
+/-- the graph model has an edge (consumer, p) for EVERY step p that declares an output the consumer reads — for all
+    producers of a path, not for one of them -/
+theorem C10_every_producer_is_a_dependency (p : Pipeline) (i j : Nat) (o : String) (r : DepRec)
+    (hj : j < p.n) (ho : o ∈ p.outs j) (hr : r ∈ p.recs i) (hread : r.reads o = true) : j ∈ buildGraph p i := by
+  unfold buildGraph
+  apply mem_dedup
+  apply List.mem_append_right
+  simp only [List.mem_filter, List.mem_range, List.any_eq_true]
+  exact ⟨hj, o, ho, r, hr, hread⟩
+
+/-- transcription of `add_implicit_dependencies` (regenerated): the edge is added inside the loop over all steps and all their
+    declared outputs, and no map keyed by the output path is built (which would keep one producer per path) -/
+theorem C10_implicit_edges_per_producer : edgePerProducerAndOutput = true ∧ producersIndexedByPath = false := by decide
+
+/-- non-vacuity: two steps declare `x.txt`, step 0 reads it: both are dependencies -/
+example : buildGraph { n := 3, recs := fun i => if i = 0 then [.path .File "x.txt"] else [],
+                       outs := fun j => if j = 0 then [] else ["x.txt"] } 0 = [1, 2] := by decide
+
 /-- the cycle test of the model is exact: Kahn succeeds iff the steps can be ranked so that every dependency has a
     smaller rank than its dependent, i.e. iff the graph has no cycle -/
 theorem C10_acyclic_iff_toposort {n : Nat} {deps : Nat → List Nat} (hwf : WF n deps) :
@@ -268,6 +289,8 @@ example : ¬ Ranked 2 (fun i => if i = 0 then [1] else [0]) := by
 #print axioms C10_edge_independent_of_recorded_state
 #print axioms C10_glob_match_is_edge
 #print axioms C10_recorded_items_do_not_hide_outputs
+#print axioms C10_every_producer_is_a_dependency
+#print axioms C10_implicit_edges_per_producer
 #print axioms C10_only_exit_zero_is_done
 #print axioms C10_exit_status_abstraction
 #print axioms C10_acyclic_iff_toposort
